@@ -126,6 +126,18 @@ def readRefsLoop : (cnt : Nat) → Bytes → Nat → Outcome (Nat × Bytes)
 /-- what `bam.ReadIndex` returns: `none` is the `nil, nil` of an index without references -/
 abbrev BaiValue := Option (Nat × Nat)
 
+/-- `internal.ReadIndex(r, n, typ)` for n ≠ 0: the references, then the optional count of unplaced
+reads.  `base` is the length of what the caller's writer emits before the references. -/
+def readIndexBody (n : Int) (s : Bytes) (base : Nat) : Outcome BaiValue :=
+  if n < 0 then err
+  else do
+    let cnt ← makeLen "internal.readIndices:make([]RefIndex, n)" n
+    let (len, rest) ← readRefsLoop cnt s base
+    -- `binary.Read(r, ..., &nUnmapped)`: io.EOF (nothing left) is accepted, a partial value is an error
+    if rest.length = 0 then pure (some (cnt, len))
+    else if rest.length < 8 then err
+    else pure (some (cnt, len + 8))
+
 /-- `bam.ReadIndex` -/
 def readBAI (s : Bytes) : Outcome BaiValue := do
   let (magic, s) ← take? 4 s
@@ -133,13 +145,32 @@ def readBAI (s : Bytes) : Outcome BaiValue := do
   else
     let (n, s) ← rdI32 s
     if n = 0 then pure none
-    else if n < 0 then err
+    else readIndexBody n s 8
+
+/-- number of zero-terminated names in a name block that ends with a zero byte:
+`strings.Split(names[:len(names)-1], "\x00")` -/
+def countNames (names : Bytes) : Nat := (splitOn 0 (names.take (names.length - 1))).length
+
+/-- `tabix.ReadFrom`: magic, n_ref, the seven header words, the name block (repair fixes/C11-12:
+`l_nm <= 0` is an error), the name count test, then `internal.ReadIndex` -/
+def readTabix (s : Bytes) : Outcome BaiValue := do
+  let (magic, s) ← take? 4 s
+  if magic ≠ [84, 66, 73, 1] then err
+  else
+    let (n, s) ← rdI32 s
+    if n = 0 then pure none
     else
-      let cnt ← makeLen "internal.readIndices:make([]RefIndex, n)" n
-      let (len, rest) ← readRefsLoop cnt s 8
-      -- `binary.Read(r, ..., &nUnmapped)`: io.EOF (nothing left) is accepted, a partial value is an error
-      if rest.length = 0 then pure (some (cnt, len))
-      else if rest.length < 8 then err
-      else pure (some (cnt, len + 8))
+      let s ← skip 24 s
+      let (lnm, s) ← rdI32 s
+      if lnm ≤ 0 then err
+      else
+        let cnt ← makeLen "tabix.readTabixHeader:make([]byte, n)" lnm
+        let (names, s) ← take? cnt s
+        let last ← indexInt "tabix.readTabixHeader:names[len(names)-1]" names ((names.length : Int) - 1)
+        if last ≠ 0 then err
+        else
+          let _ ← sliceTo "tabix.readTabixHeader:names[:len(names)-1]" names (names.length - 1)
+          if (countNames names : Int) ≠ n then err
+          else readIndexBody n s (36 + cnt)
 
 end Hts.Model.Decoders
